@@ -127,14 +127,8 @@ theorem step_tinv (cfg : Config S) (hdt : 0 ≤ cfg.dt) (P : NodeId → Proto S 
 
 theorem reachable_tinv {cfg : Config S} (hdt : 0 ≤ cfg.dt) {P : NodeId → Proto S σ} {w : World S σ}
     (h : Reachable cfg P w) : TInv cfg w := by
-  obtain ⟨pre, n, rfl⟩ := h
-  suffices ∀ n (w : World S σ), WInv w → TInv cfg w → WInv (steps cfg P n w) ∧ TInv cfg (steps cfg P n w) from
-    (this n _ (initWith_inv cfg P hdt pre) (initWith_tinv cfg P pre)).2
-  intro n
-  induction n with
-  | zero => intro w hw ht; exact ⟨hw, ht⟩
-  | succ n ih =>
-    intro w hw ht
-    exact ih _ (step_inv cfg hdt P w hw).1 (step_tinv cfg hdt P w hw ht)
+  exact h.rec_inv (init_tinv cfg P)
+    (fun w hr ht => step_tinv cfg hdt P w (reachable_inv hdt hr) ht)
+    (fun w n p _ ht => TInv.ext (ext_runProg cfg n p w) ht)
 
 end Sim
